@@ -1,6 +1,7 @@
 import RPVerif.Model.Sizing
 import RPVerif.Gen.Configs
 import RPVerif.Gen.Factories
+import RPVerif.Gen.Exec
 
 /-!
 # C17 — Every shipped platform resolves and pilots are sized to fit
@@ -225,5 +226,21 @@ example : sizePilot ⟨42, 6, 4, 4, 0⟩ ⟨0, 1000, 40, 1⟩
 
 /-- GPUs requested on a platform without declared GPUs (an Expanse-like node, 128 cores) -/
 example : sizePilot ⟨128, 0, 1, 0, 0⟩ ⟨0, 256, 4, 0⟩ = .ok ⟨2, 256, 4, 128, 2, 0, 256, 4, 128, 0⟩ := by rfl
+
+/-! ### the agent works with the nodes it was told (round 17) -/
+
+/-- **C17, the agent is told the same node figures the job requests - and keeps them**: with the guard of the fallback in
+    the agent's resource manager as the translator reads it (`Gen.agentKeepsToldNodes`), an agent that was told a node
+    count works with it, whatever the core and GPU figures of the job (which include the backup nodes) would give: the
+    backup nodes stay in reserve -/
+theorem C17_agent_keeps_told_nodes (told derived : Nat) (h : 0 < told) :
+    agentNodes Gen.agentKeepsToldNodes told derived = told := by
+  have e : Gen.agentKeepsToldNodes = true := by decide
+  rw [e]
+  simp [agentNodes]
+  omega
+
+/-- a pilot of 2 nodes plus 1 backup node: derived from the figures of the job the agent would work with 3 -/
+theorem C17_agent_keeps_told_nodes_witness : agentNodes false 2 3 = 3 ∧ agentNodes true 2 3 = 2 ∧ agentNodes true 0 3 = 3 := by decide
 
 end RPVerif.C17
